@@ -191,6 +191,17 @@ pub struct MemFault {
     pub fired: bool,
 }
 
+/// Storage corruption fault: the context handed back by the nth successful `take_frag` (counted from when the
+/// fault was armed) has one field altered, as if a stored word had been flipped while the reassembly was parked.
+#[derive(Clone, Copy, Debug)]
+pub struct CtxFault {
+    pub nth: u64,
+    /// 0 pdu_len, 1 total_len, 2 protocol_type, 3 from_label_reuse toggled, 4 label replaced
+    pub field: u8,
+    pub val: u64,
+    pub fired: bool,
+}
+
 #[derive(Default, Debug)]
 pub struct Ledger {
     /// address -> ordinal for every buffer ever provisioned by the harness
@@ -201,6 +212,10 @@ pub struct Ledger {
     /// buffers taken out through the trait and not yet put back (held by decapsulator or caller)
     pub out: BTreeMap<usize, ()>,
     pub faults: Vec<MemFault>,
+    pub ctxfaults: Vec<CtxFault>,
+    /// context corruptions applied / of those, how many left pdu_len beyond the storage length
+    pub ctx_fired: u64,
+    pub ctx_beyond_storage: u64,
     pub calls: BTreeMap<MemOp, u64>,
     pub fired: BTreeMap<MemOp, u64>,
     /// total trait calls (for fault enumeration)
@@ -240,8 +255,12 @@ impl Ledger {
     pub fn arm(&mut self, op: MemOp, nth: u64) {
         self.faults.push(MemFault { op, nth, fired: false });
     }
+    pub fn arm_ctx(&mut self, nth: u64, field: u8, val: u64) {
+        self.ctxfaults.push(CtxFault { nth, field, val, fired: false });
+    }
     pub fn disarm_all(&mut self) {
         self.faults.clear();
+        self.ctxfaults.clear();
     }
     fn note_in(&mut self, addr: usize, len: usize, fid: Option<u8>) {
         if !self.ord.contains_key(&addr) {
@@ -371,10 +390,44 @@ impl GseDecapMemory for LedgerMemory {
             }
             return Err(DecapMemoryError::UndefinedId);
         }
-        let r = self.inner.take_frag(frag_id);
+        let mut r = self.inner.take_frag(frag_id);
         let mut g = self.led.borrow_mut();
         if let Ok((_, b)) = &r {
             g.note_out(addr(b), "take_frag");
+        }
+        if let Ok((ctx, b)) = &mut r {
+            let mut hit: Option<CtxFault> = None;
+            for f in g.ctxfaults.iter_mut() {
+                if !f.fired {
+                    if f.nth == 0 {
+                        f.fired = true;
+                        hit = Some(*f);
+                    } else {
+                        f.nth -= 1;
+                    }
+                    break;
+                }
+            }
+            if let Some(f) = hit {
+                g.ctx_fired += 1;
+                match f.field % 5 {
+                    0 => ctx.pdu_len = f.val as u16,
+                    1 => ctx.total_len = f.val as u16,
+                    2 => ctx.protocol_type = f.val as u16,
+                    3 => ctx.from_label_reuse = !ctx.from_label_reuse,
+                    _ => {
+                        ctx.label = match f.val % 4 {
+                            0 => Label::Broadcast,
+                            1 => Label::ReUse,
+                            2 => Label::SixBytesLabel([0; 6]),
+                            _ => Label::ThreeBytesLabel([f.val as u8, (f.val >> 8) as u8, (f.val >> 16) as u8]),
+                        }
+                    }
+                }
+                if ctx.pdu_len as usize > b.len() {
+                    g.ctx_beyond_storage += 1;
+                }
+            }
         }
         if g.keep_trace {
             g.trace.push((MemOp::TakeFrag, r.is_ok()));
